@@ -1,5 +1,6 @@
 import Driver.Frame
 import KrakenModel.Model.MetaInfo
+import KrakenModel.Model.RefreshPL
 /- Driver for C02: replays metainfo generation / (de)serialisation / piece-length-table records on
    the model and evaluates the property's predicates on what the implementation returned.
 
@@ -237,6 +238,42 @@ def stepPlt (_ : Unit) (kind : String) (args impl : List String) : Option (Unit 
 
 def machinePlt : Machine := { σ := Unit, name := "plt", init := fun _ => some (), step := stepPlt }
 
+/-! ### refresh from a backend (lib/blobrefresh): which table entry the stored metainfo uses -/
+
+/-- `one refresh tbl=… stat=<n> data=<x> mem=0|1 max=<n> => ok pl=<p> len=<l> inmem=0|1`
+monitor `piece-length-not-for-blob-size`: the stored piece length is not the one configured for the largest
+threshold not above the *blob's* size (computed from the configuration map directly) -/
+def stepRefresh (_ : Unit) (kind : String) (args impl : List String) : Option (Unit × StepOut) :=
+  if kind ≠ "one" then none else
+  match args with
+  | "refresh" :: rest => do
+    let m ← (kv? rest "tbl").bind table?
+    let stat ← (kv? rest "stat").bind (·.toNat?)
+    let data ← (kv? rest "data").bind bytes?
+    let mem ← (kv? rest "mem").bind bool?
+    let max ← (kv? rest "max").bind (·.toNat?)
+    if ¬ (m.map (·.1)).Nodup then none else
+    match mkTable m with
+    | none => pure ((), { obs := ["errcfg"], branch := "refresh.errcfg" })
+    | some t =>
+      let mi := m.map fun kv => (toInt64 kv.1, toInt64 kv.2)
+      let pf := match kv? impl "pl", specGet mi data.length with
+        | some v, some w =>
+          if v.toInt? ≠ some w then
+            [s!"side=impl key=piece-length-not-for-blob-size blob of {data.length} bytes (backend Stat said {stat}) is stored with piece length {v}; the table {mi} gives {w} for its size"]
+          else []
+        | _, _ => []
+      -- through the memory cache only when the reservation fits and the stream has the reserved length
+      let inmem := mem ∧ stat ≤ max ∧ stat = data.length
+      match KrakenModel.RefreshPL.refreshPL t stat data.length with
+      | .panic => pure ((), { obs := ["panic"], branch := "refresh.panic", propfails := pf })
+      | .ok pl =>
+        let br := if stat = data.length then (if inmem then "refresh.mem" else "refresh.disk") else "refresh.stat-differs"
+        pure ((), { obs := ["ok", s!"pl={pl}", s!"len={data.length}", s!"inmem={boolTok inmem}"], branch := br, propfails := pf })
+  | _ => none
+
+def machineRefresh : Machine := { σ := Unit, name := "refresh", init := fun _ => some (), step := stepRefresh }
+
 end C02
 
-def main (args : List String) : IO UInt32 := runMachines [C02.machineMi, C02.machinePlt] args
+def main (args : List String) : IO UInt32 := runMachines [C02.machineMi, C02.machinePlt, C02.machineRefresh] args
